@@ -693,3 +693,55 @@ def r10_transform_flags(ck, P):
     for name in TRANSFORM_FLAG_REQUIRES:
         if name in C and name not in seen:
             ck.incomplete(R, 'no site setting %s found in compute_image_info' % name)
+
+
+def r11_rounding_epsilon(ck, P):
+    """rounding.txt: a coordinate is converted to a pixel index as floor (v - e); the epsilon appears at every conversion of a sibling group"""
+    from .geometry import linear
+    from . import filt
+    R = ck.rule('C08-R11', 'the kernel start of every separable-convolution reader is int (coordinate - pixman_fixed_e - offset) on both axes, and every row/column offset of the 90/270-degree rotations is int (translation + 1/2 - pixman_fixed_e): within each sibling group all conversions carry the same epsilon as rounding.txt prescribes', floor=8)
+    n = 0
+    for f in P.functions():
+        # (a) convolution readers: ashr 16 of (coord - offset_derived_from_header [- 1])
+        sy = filt.Sym(P, f)
+        hdr = {x.i for x in f.insts() if x.op == 'load' and sy.header_index(x.a[0]) in (0, 1)}
+        if hdr and f.name != 'pixman_image_set_filter' and 'analyze' not in f.name:
+            def dep_hdr(o, d=0, seen=None):
+                seen = seen if seen is not None else set()
+                if o[0] != 'v' or o[1] in seen or d > 12:
+                    return False
+                seen.add(o[1])
+                y = f.by_id[o[1]]
+                return y.i in hdr or (y.op not in ('load', 'call', 'phi') and any(dep_hdr(a, d + 1, seen) for a in y.a))
+            for x in f.insts():
+                if x.op != 'ashr' or not (x.a[1][0] == 'c' and int(x.a[1][1]) == 16):
+                    continue
+                lf = linear(f, x.a[0])
+                if lf is None:
+                    continue
+                offs = [t for t, c in lf.items() if t and t[0] == 'opaque' and c == -1 and dep_hdr(['v', t[1]])]
+                if len(offs) != 1:
+                    continue
+                n += 1; ck.saw(f)
+                if lf.get((), 0) == -1:
+                    ck.ok(R, '%s: kernel start at %s subtracts the epsilon' % (f.name, x.loc()))
+                else:
+                    ck.violation(R, f.name, 'kernel start without the rounding epsilon', '%s converts (coordinate - offset%s) to the first kernel tap: rounding.txt and the sibling reader subtract pixman_fixed_e first, so when the difference is an exact integer the window starts one pixel further right/down than in the other implementation' % (f.name, (' %+d' % lf.get((), 0)) if lf.get((), 0) else ''), x.loc())
+        # (b) rotations
+        if f.name.startswith('fast_composite_rotate_'):
+            for x in f.insts():
+                if x.op != 'ashr' or not (x.a[1][0] == 'c' and int(x.a[1][1]) == 16):
+                    continue
+                lf = linear(f, x.a[0])
+                if lf is None:
+                    continue
+                mats = [t for t, c in lf.items() if t and t[0] == 'mem' and 'pixman_transform.matrix' in str(t)]
+                if len(mats) != 1:
+                    continue
+                n += 1; ck.saw(f)
+                if lf.get((), 0) == 32767:
+                    ck.ok(R, '%s: offset at %s is int (t + 1/2 - e)' % (f.name, x.loc()))
+                else:
+                    ck.violation(R, f.name, 'rotation offset rounding', '%s converts a translation to a source offset with the constant %d instead of pixman_fixed_1 / 2 - pixman_fixed_e (32767): for translations with a fraction of exactly one half it copies from one row/column further than the extent analysis allowed, reading outside the image at the border' % (f.name, lf.get((), 0)), x.loc())
+    if n == 0:
+        ck.incomplete(R, 'no coordinate-to-index conversion found')
